@@ -134,7 +134,8 @@ Definition write_charge (q : Z) : Z * Z :=
   if q =? 0 then (32, 32) else if 0 <? q then (48 + q, 43) else (48 - q, 45).
 
 Definition read_altloc (c : Z) : Z := if c =? 32 then 0 else c.
-Definition write_altloc (a : Z) : Z := if a =? 0 then 32 else a.   (* toupper not modelled: altloc not a-z *)
+(* a.altloc ? std::toupper(a.altloc) : ' ' *)
+Definition write_altloc (a : Z) : Z := if a =? 0 then 32 else if (97 <=? a) && (a <=? 122) then a - 32 else a.
 
 (* read_string(p, n): left trim, cut at CR/LF/NUL, right trim *)
 Fixpoint ltrim_n (n : nat) (s : str) : nat * str :=
